@@ -195,3 +195,16 @@ def edge_selects_me(ctx: Ctx, fn: Func, node: ast.AST) -> bool:
         guarded = all(any(isinstance(i.test, ast.Compare) and i.test in ident for (i, b) in enclosing_ifs(r, f.node) if b == "T") for r in trues)
         return bool(p and inits and walks and ident and trues and guarded)
     return False
+
+
+def framework_callbacks(repo) -> list:
+    """Methods the parsing framework calls by name (lark Transformer callbacks): the call graph cannot see these calls, so every
+    method of a class whose base is lark's Transformer counts as reachable from ProjectFileParser.parse."""
+    out = []
+    for m in repo.by_rel.values():
+        for st in m.tree.body:
+            if isinstance(st, ast.ClassDef) and any("Transformer" in norm(b) for b in st.bases):
+                for f in repo.all_funcs():
+                    if f.cls is not None and f.cls.name == st.name and f.parent is None and f.module is m:
+                        out.append(f)
+    return out
